@@ -340,3 +340,20 @@ Example callee_local_witness :
     end) [false; true] = true /\
   forallb (val_only (length d_heap)) [RDecl (APar 0%nat); RS (SWrite (AFld (AVar 3%nat) 0%nat) 70)] = true.
 Proof. exact callee_local_demo. Qed.
+
+(* the inputs of the five findings repaired in the code (FIXCOMMIT-byval-nested-members, -nested-member-assign,
+   -copy-of-copy-array-member, -decl-copy-nested-member), as one history over two P objects:
+   void f(P b){ println(1, b.inner.w); b.inner.w = 139; println(2, b.inner.w); }  f(a) with a live b - the parameter is
+   its own location whatever its name, the caller's a.inner.w / b.inner.w stay 118 / 107; a.inner = b.inner; P c = b;
+   a = c (copy of a copy) carry the nested and the array members - under both conventions; the callee body is in the
+   domain of byval_calls_private.  The same programs are regression replays (known_findings/C07.json fixed_replays). *)
+Example repaired_inputs_witness :
+  forallb (fun mech =>
+    match transcript mech fx_heap fx_ops with
+    | ([l1; l2; l3; l4; l5; l6], true) =>
+        zs_eqb2 l1 [1; 118] && zs_eqb2 l2 [2; 139] && zs_eqb2 l3 [3; 118; 107] && zs_eqb2 l4 [4; 107] &&
+        zs_eqb2 l5 [5; 107; 106] && zs_eqb2 l6 [6; 106; 107]
+    | _ => false
+    end) [false; true] = true /\
+  forallb (val_only (length fx_heap)) fx_body = true.
+Proof. exact repaired_inputs_demo. Qed.
